@@ -449,4 +449,157 @@ theorem reverted_facts {s0 t X : State} (h0 : Inv11 s0) (hP : Prog s0 [] t)
         apply sh.lost j hnone _ hg
         rw [hP.str.cacheS k j h]; simp
 
+theorem CleanupFacts.idle {s : State} (h : Inv11 s) (hn : s.needsToJoin = true) : CleanupFacts s s s := by
+  refine ⟨h.prePoll hn, Clean.refl h.str, rfl, fun _ _ h => h, fun k j hc => h.str.cacheS k j hc, ?_⟩
+  intro j hch
+  have := h.changedReg j hch
+  rw [(h.idle hn).1] at this; cases this
+
+/-- **Outcome of `transaction.abort()`** on an open connection, in every reachable state -/
+theorem abort_outcome {s : State} (hg : Good s) (hop : s.opened = true) :
+    Reverted s s (txnAbort s) ∧
+    -- a new object is never invalidated by a plain abort: it keeps its state
+    (∀ j, (∀ k, s.cache.get k ≠ some j) → (s.objs j).status ≠ .ghost →
+      ((txnAbort s).objs j).status ≠ .ghost) := by
+  obtain ⟨h, hb⟩ := hg
+  have key : Reverted s s (txnAbort s) := by
+    unfold txnAbort
+    dsimp only
+    by_cases hn : s.needsToJoin = true
+    · rw [if_pos hn]
+      exact reverted_facts h (Prog.refl h.str) (CleanupFacts.idle h hn) hop
+    · rw [if_neg hn]
+      have cf := cleanup_prePoll h (Prog.refl h.str) (Or.inr rfl) false (by intro hh; cases hh)
+      rw [cleanup_not_begun hb] at cf
+      exact reverted_facts h (Prog.refl h.str) cf (by rw [cf.clean.2.opened]; exact hop)
+  refine ⟨key, ?_⟩
+  intro j hj hg0 hg
+  obtain ⟨_, _, _, hk⟩ := key.fresh j hj
+  obtain ⟨_, _, hw⟩ := hk hg0
+  obtain ⟨_, k, hc⟩ := hw hg
+  exact hj k hc
+
+/-- a commit that reports a failure: the connection was not joined (then only the transaction
+    boundary happens), or `_cleanup` ran in a state reached by `_commit` -/
+theorem txnCommit_failed {s : State} (hg : Good s) (hop : s.opened = true) (bound : Nat) (f : Fail)
+    (e : Err) (hout : (txnCommit bound s f).2 = .failed e) :
+    ∃ s0 t, s0.objs = s.objs ∧ s0.cache = s.cache ∧ s0.added = s.added ∧ shared s0 = shared s ∧
+      s0.d2 = s.d2 ∧ Inv11 s0 ∧ Prog s0 [] t ∧ Reverted s0 t (txnCommit bound s f).1 := by
+  obtain ⟨h, hb⟩ := hg
+  have h1 : Inv11 { s with fail := f, nstores := 0, sps := [] } :=
+    h.congr rfl rfl rfl rfl rfl rfl rfl rfl rfl rfl rfl rfl rfl
+  obtain ⟨h2, hmk, hst, hb2, gok, gfail⟩ := beginCommit_facts h1 bound
+  unfold txnCommit at hout ⊢
+  dsimp only at hout ⊢
+  by_cases hn : s.needsToJoin = true
+  · rw [if_pos hn]
+    exact ⟨{ s with fail := f, nstores := 0, sps := [] }, { s with fail := f, nstores := 0, sps := [] }, rfl, rfl, rfl, rfl, rfl, h1, Prog.refl h1.str,
+      reverted_facts h1 (Prog.refl h1.str) (CleanupFacts.idle h1 hn) hop⟩
+  rw [if_neg hn] at hout ⊢
+  dsimp only at hout ⊢
+  unfold commitJoined at hout ⊢
+  dsimp only at hout ⊢
+  split
+  · have cf := cleanup_prePoll h1 (Prog.refl h1.str) (Or.inr rfl) false (by intro hh; cases hh)
+    exact ⟨{ s with fail := f, nstores := 0, sps := [] }, { s with fail := f, nstores := 0, sps := [] }, rfl, rfl, rfl, rfl, rfl, h1, Prog.refl h1.str,
+      reverted_facts h1 (Prog.refl h1.str) cf (by rw [cf.clean.2.opened]; exact hop)⟩
+  rename_i hf1
+  rw [if_neg hf1] at hout
+  split
+  · have cf := cleanup_prePoll h2 (Prog.refl h2.str) (Or.inr rfl) false (by intro hh; cases hh)
+    exact ⟨connTpcBegin { s with fail := f, nstores := 0, sps := [] }, connTpcBegin { s with fail := f, nstores := 0, sps := [] }, rfl, rfl, rfl, rfl, rfl, h2, Prog.refl h2.str,
+      reverted_facts h2 (Prog.refl h2.str) cf (by rw [cf.clean.2.opened]; exact hop)⟩
+  rename_i hf2
+  rw [if_neg hf2] at hout
+  cases hres : (connCommit bound (connTpcBegin { s with fail := f, nstores := 0, sps := [] })).2 with
+  | some e' =>
+    dsimp only
+    have hP := gfail (by rw [hres]; simp)
+    have cf := cleanup_prePoll h2 hP (Or.inl hmk) false (by intro hh; cases hh)
+    exact ⟨connTpcBegin { s with fail := f, nstores := 0, sps := [] }, _, rfl, rfl, rfl, rfl, rfl, h2, hP,
+      reverted_facts h2 hP cf (by rw [cf.clean.2.opened, hP.opened]; exact hop)⟩
+  | none =>
+    rw [hres] at hout
+    dsimp only at hout ⊢
+    obtain ⟨hP, hJ, hall⟩ := gok hres
+    split
+    · have cf := cleanup_prePoll h2 hP (Or.inl hmk) false (by intro hh; cases hh)
+      exact ⟨connTpcBegin { s with fail := f, nstores := 0, sps := [] }, _, rfl, rfl, rfl, rfl, rfl, h2, hP,
+        reverted_facts h2 hP cf (by rw [cf.clean.2.opened, hP.opened]; exact hop)⟩
+    rename_i hf3
+    rw [if_neg hf3] at hout
+    split
+    · have cf := cleanup_prePoll h2 hP (Or.inl hmk) true (fun _ => ⟨by rw [hP.begun]; exact hb2, hall⟩)
+      exact ⟨connTpcBegin { s with fail := f, nstores := 0, sps := [] }, _, rfl, rfl, rfl, rfl, rfl, h2, hP,
+        reverted_facts h2 hP cf (by rw [cf.clean.2.opened, hP.opened]; exact hop)⟩
+    rename_i hf4
+    rw [if_neg hf4] at hout
+    cases hout
+
+/-- **next access of a ghost of the database shows the record of the current snapshot** -/
+theorem ghost_read {s : State} (h : Inv11 s) (hop : s.opened = true) {k j : Nat}
+    (hc : s.cache.get k = some j) (hg : (s.objs j).status = .ghost) :
+    ∃ r, s.snap.get k = some r ∧ (access s j).2 = none ∧
+      (access s j).1.objs j = { s.objs j with status := .uptodate, serial := r.serial, val := r.val,
+                                              refs := r.refs } := by
+  obtain ⟨r, hr, _⟩ := h.coh k j hc
+  have hoid := h.str.cacheS k j hc
+  have hjar : (s.objs j).jar = true := by
+    have := h.str.jarOid j; rw [hoid] at this; simpa using this
+  refine ⟨r, hr, ?_, ?_⟩
+  · unfold access
+    simp [hg, hjar, hop, hoid, h.loadRec, hr]
+  · unfold access
+    simp [hg, hjar, hop, hoid, h.loadRec, hr, setO]
+
+/-- closing is refused while joined, and a connection that is not joined holds nothing uncommitted -/
+theorem close_joined (s : State) (hj : s.needsToJoin = false) : opClose s = (s, .err .connState) := by
+  unfold opClose; simp [hj]
+
+theorem unjoined_clean {s : State} (hg : Good s) (hn : s.needsToJoin = true) :
+    s.registered = [] ∧ s.added = [] ∧ s.creating = [] ∧ (∀ i, (s.objs i).status ≠ .changed) ∧
+    (∀ i, (s.objs i).oid ≠ none → ∃ k, s.cache.get k = some i) := by
+  obtain ⟨h, _⟩ := hg
+  refine ⟨(h.idle hn).1, (h.idle hn).2, h.creatingNil, ?_, ?_⟩
+  · intro i hch
+    have := h.changedReg i hch
+    rw [(h.idle hn).1] at this; cases this
+  · intro i hi
+    obtain ⟨k, hk⟩ := Option.ne_none_iff_exists'.1 hi
+    have := h.str.known i k hk
+    simp only [List.not_mem_nil, or_false, (h.idle hn).2, Map.get_nil] at this
+    rcases this with h' | h'
+    · exact ⟨k, h'⟩
+    · cases h'
+
+/-- **a connection taken from the pool again holds no uncommitted state** -/
+theorem reuse_clean {s : State} (hg : Good s) (hok : (opClose s).2.isFailed = false)
+    (hclosed : (opClose s).1.opened = false) :
+    let s2 := (opOpen (opClose s).1).1
+    s2.opened = true ∧ s2.registered = [] ∧ s2.added = [] ∧ s2.creating = [] ∧ s2.needsToJoin = true ∧
+    s2.snap = s2.committed ∧ (∀ i, (s2.objs i).status ≠ .changed) ∧
+    (∀ k i, s2.cache.get k = some i → ∃ c, s2.committed.get k = some c ∧
+      ((s2.objs i).status = .uptodate →
+        (s2.objs i).val = c.val ∧ (s2.objs i).refs = c.refs ∧ (s2.objs i).serial = c.serial)) ∧
+    (∀ i, (s2.objs i).oid ≠ none → ∃ k, s2.cache.get k = some i) := by
+  obtain ⟨h, hb⟩ := hg
+  have hc := opClose_inv11 h
+  have ho := opOpen_inv11 hc
+  have hn : (opClose s).1.needsToJoin = true := hc.closedIdle hclosed
+  dsimp only
+  unfold opOpen at ho ⊢
+  simp only [hclosed, Bool.false_eq_true, if_false] at ho ⊢
+  obtain ⟨⟨a1, a2, a3, a4, a5, a6, a7, a8⟩, _⟩ := poll_facts { (opClose s).1 with opened := true }
+  have hn2 : (poll { (opClose s).1 with opened := true }).needsToJoin = true := by rw [a8]; exact hn
+  have hg2 : Good (poll { (opClose s).1 with opened := true }) := ⟨ho, by
+    rw [poll_begun]
+    show (opClose s).1.begun = false
+    unfold opClose; split <;> exact hb⟩
+  obtain ⟨u1, u2, u3, u4, u5⟩ := unjoined_clean hg2 hn2
+  refine ⟨by rw [poll_opened], u1, u2, u3, hn2, by rw [a3, a2], u4, ?_, u5⟩
+  intro k i hci
+  obtain ⟨r, hr, q1, q2⟩ := ho.coh k i hci
+  rw [a3, ← a2] at hr
+  exact ⟨r, hr, fun hu => ⟨(q2 hu).1, (q2 hu).2, q1 (by rw [hu]; simp)⟩⟩
+
 end Proofs.Conn
